@@ -2059,7 +2059,7 @@ class Memoer(Tymee):
             else:
                 raise  # unexpected error
 
-        if cnt:
+        if dst is not None:  # not dropped so keep what remains to send if any
             del gram[:cnt]  # remove from buffer those bytes sent
             if not gram:  # all sent
                 dst = None  # done indicated by setting dst to None
@@ -2077,7 +2077,7 @@ class Memoer(Tymee):
            echoic (bool): True means echo sends into receives via. echos
                            False measn do not echo
         """
-        if self.opened and self.txgs:
+        if self.opened and (self.txgs or self.txbs[1] is not None):
             self._serviceOnceTxGrams(echoic=echoic)
 
 
@@ -2090,7 +2090,7 @@ class Memoer(Tymee):
            echoic (bool): True means echo sends into receives via. echos
                            False measn do not echo
         """
-        while self.opened and self.txgs:  # pending gram(s)
+        while self.opened and (self.txgs or self.txbs[1] is not None):  # pending gram(s)
             if not self._serviceOnceTxGrams(echoic=echoic):  # send incomplete
                 break  # try again later
 
